@@ -22,52 +22,113 @@ EXPLANATION = (
     'forwards for_blobs; Client.start passes for_blobs=True for the BLOB connection only; the default threshold is a positive integer. '
     "C08.PROGRESS: C11's ranking rule restricted to paths that assume the threshold disabled - a partial BLOB must make process() leave the loop, "
     'not spin.'
+    ' C08.CODEC includes 0-byte and 1-byte payloads on the producer side (an empty BLOB is a value, not an unset element).'
+    " C08.VALUE: values.BLOB is evaluated on five constant payloads through its real constructor and public views (size, base64 text, format, bytes), fresh and after the views were read once and the payload replaced by one of the same / another length; from_base64 inverts the base64 view, '' and None give the empty payload (base64 functions on constants are folded with the standard library)."
 )
 NOT_DECIDED = "byte equality for all payloads and sizes (that is base64's contract, listed as trusted base); transfer of multi-megabyte payloads through real sockets."
 ASSUMPTIONS = ["base64.b64decode(base64.b64encode(b)) == b for every byte string b", "latin-1 encoding of base64 text is loss-free"]
 TRUSTED = ["CPython ast", "indilint abstract interpreter"]
 
 
+def _b64_model(it, callee, args, kw):
+    """base64.<std/urlsafe>_b64{en,de}code on CONSTANT arguments, decided by the standard library (no repository code)."""
+    if isinstance(callee, Foreign) and callee.dotted.startswith("base64.") and args and isinstance(args[0], Const) and isinstance(args[0].v, (bytes, str)) and not kw and len(args) == 1:
+        import base64 as _b
+        import binascii
+        fn = getattr(_b, callee.dotted.split(".", 1)[1], None)
+        if fn is None:
+            return None
+        try:
+            return Const(fn(args[0].v))
+        except (binascii.Error, ValueError, TypeError):
+            from ..absint import _Raise
+            raise _Raise(Term("exc", "Error"), getattr(it, "cur_stmt", None))
+    return None
+
+
+_PAYLOADS = [b"", b"x", b"\x00\xff\xfe\xfd", b"\xfb\xff\xfe", b"hello world " * 5]
+
+
+def rule_value(ctx):
+    """values.BLOB as a value object, evaluated on constant payloads through its real constructor and public views:
+    size / base64 text / format / bytes describe the CURRENT payload - also after the views were read once and the payload
+    was then replaced (a driver reusing one BLOB object per exposure); from_base64 inverts the base64 view."""
+    import base64 as _b
+    p = ctx.p
+    vb = p.cls("indi.device.values.BLOB")
+    from ..absint import Frame
+    from .common import public_get
+    fb = vb.find_method("from_base64")
+    bad = False
+    n = 0
+
+    def views(it, o):
+        return tuple(public_get(it, o, a) for a in ("size", "binary_base64", "format", "binary"))
+
+    def want(payload, fmt):
+        return (len(payload), _b.b64encode(payload).decode("ascii"), fmt, payload)
+
+    def same(got, exp):
+        return all(isinstance(g, Const) and g.v == e and type(g.v) is type(e) for g, e in zip(got, exp))
+
+    for i, payload in enumerate(_PAYLOADS):
+        nxt = _PAYLOADS[(i + 1) % len(_PAYLOADS)]
+        nxt_same_len = bytes((b + 1) % 256 for b in payload)
+        for label, second in (("fresh object", None), ("payload replaced by one of another length", nxt), ("payload replaced by one of the same length", nxt_same_len)):
+            if second is not None and second == payload:
+                continue
+            n += 1
+
+            def run(it: Interp, payload=payload, second=second):
+                o = it.apply(Cls(vb), [Const(payload), Const(".fits")], {}, [], None, Frame(None, vb.module, {}), False)
+                it.first = views(it, o)
+                it.second = None
+                if second is not None:
+                    it.exec_block(ast.parse("o.binary = v").body, Frame(None, vb.module, {"o": o, "v": Const(second)}))
+                    it.second = views(it, o)
+                return Const(None)
+
+            paths = explore(p, run, {"inline": lambda fi, node: fi.cls is vb, "instantiate": lambda ci: ci is vb, "foreign_model": _b64_model})
+            ctx.paths_enumerated += len(paths)
+            if len(paths) != 1 or paths[0].outcome != "return":
+                ctx.undecided("C08.VALUE", vb.short, f"BLOB({payload!r}) [{label}] not decided by constant evaluation ({len(paths)} paths)", ci=vb)
+                bad = True
+                continue
+            it_ = paths[0].interp
+            if not same(it_.first, want(payload, ".fits")):
+                ctx.violated("C08.VALUE", vb.short, f"BLOB({payload!r}, '.fits') shows (size, base64, format, bytes) = {tuple(show(x)[:40] for x in it_.first)}, expected {want(payload, '.fits')}", ci=vb, text="views:fresh", witness=repr(payload))
+                bad = True
+            elif second is not None and not same(it_.second, want(second, ".fits")):
+                ctx.violated("C08.VALUE", vb.short, f"after its views were read and the payload of the same BLOB object was replaced by {second!r}, it shows (size, base64, format, bytes) = {tuple(show(x)[:40] for x in it_.second)}, expected {want(second, '.fits')}: a stale derived view travels with the new payload's size", ci=vb, text=f"views:stale:{'same-length' if len(second) == len(payload) else 'other-length'}", witness=f"{payload!r} then {second!r}")
+                bad = True
+    for payload in _PAYLOADS:
+        for text in (_b.b64encode(payload).decode("ascii"),) + ((None,) if not payload else ()):
+            n += 1
+
+            def run2(it: Interp, text=text):
+                o = it.run_function(Fn(fb, Cls(vb)), [Const(text), Const(".raw")], {})
+                if not isinstance(o, Obj):
+                    raise Undecided("from_base64 did not construct an object")
+                it.first = views(it, o)
+                return Const(None)
+
+            paths = explore(p, run2, {"inline": lambda fi, node: fi.cls is vb, "instantiate": lambda ci: ci is vb, "foreign_model": _b64_model})
+            ctx.paths_enumerated += len(paths)
+            if len(paths) != 1 or paths[0].outcome != "return":
+                ctx.undecided("C08.VALUE", fb.short, f"from_base64({text!r}) not decided by constant evaluation ({len(paths)} paths)", fi=fb)
+                bad = True
+            elif not same(paths[0].interp.first, want(payload, ".raw")):
+                ctx.violated("C08.VALUE", fb.short, f"from_base64({text!r}, '.raw') shows {tuple(show(x)[:40] for x in paths[0].interp.first)}, expected {want(payload, '.raw')}", fi=fb, text="from_base64", witness=repr(text))
+                bad = True
+    ctx.counters["C08.VALUE:scenarios"] = n
+    if not bad:
+        ctx.holds("C08.VALUE", vb.short, f"{n} scenarios on {len(_PAYLOADS)} constant payloads: size/base64/format/bytes follow the current payload (fresh and after replacement); from_base64 inverts the base64 view", ci=vb)
+
+
 def rule_codec(ctx):
     p = ctx.p
     vb = p.cls("indi.device.values.BLOB")
-    g = vb.find_getter("binary_base64")
-    paths = run_method(p, g)
-    ok = all(pa.outcome == "return" and "b64encode(self.binary)" in show(pa.value) and ".decode(" in show(pa.value) for pa in paths)
-    ctx.check(ok, "C08.CODEC", g.short, "b64encode(self.binary) as text", f"binary_base64 is {show(paths[0].value)[:60] if paths else None}, not the standard base64 text of .binary", fi=g, text="encode")
-    for pa in paths:
-        v = pa.value
-        for t in subterms(v):
-            if isinstance(t, Term) and is_call(t, method="decode") and t.args[1]:
-                c = t.args[1][0]
-                ctx.check(isinstance(c, Const) and str(c.v).lower() in B.LATIN1 | {"ascii", "utf-8", "utf8", "us-ascii"}, "C08.CODEC", g.short + " text codec", f"codec {show(c)}", f"base64 bytes are turned into text with {show(c)}", fi=g, text="b64-text-codec")
-    f = vb.find_method("from_base64")
-    paths = run_method(p, f, self_val=Cls(vb))
-    ok = True
-    for pa in paths:
-        v = pa.value
-        if pa.outcome != "return" or not (isinstance(v, Term) and v.op == "call" and isinstance(v.args[0], Cls) and v.args[0].ci is vb):
-            ok = False
-            continue
-        a = list(v.args[1]) + [x for _, x in v.args[2]]
-        empty_path = any((not e.data["truth"]) and show(e.data["cond"]) == "binary_base64" for e in pa.assumes())
-        src_ok = ("binary_base64" in show(a[0])) if not empty_path else show(a[0]).endswith("b64decode('')")
-        if len(a) != 2 or "b64decode(" not in show(a[0]) or not src_ok or show(a[1]) != "format":
-            ok = False
-    ctx.check(ok, "C08.CODEC", f.short, "BLOB(b64decode(text), format)", "from_base64 does not build BLOB(b64decode(text), format)", fi=f, text="decode")
-    # same alphabet on both sides
-    enc = {n_.func.attr for n_ in ast.walk(g.node) if isinstance(n_, ast.Call) and isinstance(n_.func, ast.Attribute) and "encode" in n_.func.attr and "b" in n_.func.attr[:4]}
-    dec = {n_.func.attr for n_ in ast.walk(f.node) if isinstance(n_, ast.Call) and isinstance(n_.func, ast.Attribute) and "decode" in n_.func.attr and n_.func.attr != "decode"}
-    pair = {("b64encode",): ("b64decode",), ("urlsafe_b64encode",): ("urlsafe_b64decode",), ("standard_b64encode",): ("standard_b64decode", "b64decode")}
-    okp = tuple(sorted(enc)) in pair and set(dec) <= set(pair[tuple(sorted(enc))]) and dec
-    ctx.check(bool(okp), "C08.CODEC", vb.short + " codec pair", f"{sorted(enc)} / {sorted(dec)}", f"encoder {sorted(enc)} and decoder {sorted(dec)} are not a matching base64 pair", ci=vb, text="pair")
-    s = vb.find_getter("size")
-    paths = run_method(p, s)
-    ctx.check(all(pa.outcome == "return" and show(pa.value) == "len(self.binary)" for pa in paths), "C08.CODEC", s.short, "len(self.binary)", "BLOB.size is not the payload length", fi=s, text="size")
-    init = vb.methods["__init__"]
-    paths = run_method(p, init)
-    ok = all({(e.data["attr"], show(e.data["value"])) for e in pa.events if e.kind == "store"} == {("binary", "binary"), ("format", "format")} for pa in paths)
-    ctx.check(ok, "C08.CODEC", init.short, "stores binary and format unchanged", "BLOB.__init__ does not store binary and format unchanged", fi=init, text="init")
+    # (values.BLOB itself - encode/decode pair, size, constructor - is decided semantically by C08.VALUE)
     # producer (driver side; the client-side producer is decided by the imported C06.CTOR)
     from .common import backing_field, public_get
     from .driverworld import _reachable_objs, build_drivers
@@ -99,10 +160,22 @@ def rule_codec(ctx):
         def run_prod0(it: Interp, payload=payload):
             drivers = build_drivers(it, p)
             el = {o.label: o for o in _reachable_objs(drivers["DEVA"])}.get("el:DEVA.V4.A")
-            el.attrs[valf] = Obj(vb, {"binary": Const(payload), "format": Const(".fits"), "__closed__": Const(True)}, label="<blob0>")
+            from ..absint import Frame
+            saved = dict(it.opts)
+            it.opts["instantiate"] = lambda ci: ci is vb
+            it.opts["inline"] = lambda fi, node: fi.cls is vb
+            try:
+                blob = it.apply(Cls(vb), [Const(payload), Const(".fits")], {}, [], None, Frame(None, vb.module, {}), False)
+            finally:
+                it.opts.clear()
+                it.opts.update(saved)
+            if not isinstance(blob, Obj):
+                raise Undecided("values.BLOB(...) did not yield an abstract object")
+            blob.label = "<blob0>"
+            el.attrs[valf] = blob
             return it.run_function(Fn(f_, el), [], {})
 
-        paths = explore(p, run_prod0, {"inline": lambda fi, node: (fi.kind == "getter" and fi.module.name.startswith("indi.device.properties")) or fi.cls is vb})
+        paths = explore(p, run_prod0, {"inline": lambda fi, node: (fi.kind == "getter" and fi.module.name.startswith("indi.device.properties")) or fi.cls is vb, "foreign_model": _b64_model})
         ok0 = len(paths) == 1 and paths[0].outcome == "return"
         got0 = None
         if ok0:
@@ -311,6 +384,7 @@ def rule_progress(ctx):
 IMPORTS = [('C05', 'C05.KEY'), ('C06', 'C06.CTOR'), ('C06', 'C06.COERCE'), ('C19', 'C19.LOCK'), ('C02', 'C02.DECODE')]
 
 RULES = [
+    ("C08.VALUE", rule_value, "values.BLOB on constant payloads: size/base64/format/bytes follow the current payload, also after replacement; from_base64 inverts"),
     ("C08.CODEC", rule_codec, "matching base64 pair; producers send base64+size+format of one value; consumers decode once and keep that object"),
     ("C08.NULL", rule_null, "empty/absent payload never reaches b64decode as None"),
     ("C08.PRED", rule_pred, "BLOB rows of the router's delivery truth table"),
